@@ -21,8 +21,10 @@ model of vlib/models/c15.py (dict on lower-cased names + raw cookie list + cooki
 import datetime
 import io
 import itertools
+import os
 import random
 import re
+import time
 import traceback
 
 import falcon
@@ -45,6 +47,7 @@ K_MAXAGE0 = 'cookie-max-age-zero-dropped'
 K_STALE = 'cookie-rewrite-keeps-stale-attributes'
 K_EMPTY = 'cookie-empty-value-read-back-quoted'
 K_DISPO = 'content-disposition-filename-not-escaped'
+K_REJ = 'cookie-rejected-call-still-written'
 
 PROPS = {
     'cache_control': 'cache-control', 'content_location': 'content-location',
@@ -61,6 +64,24 @@ ENTITY_TAG = re.compile(r'^(W/)?"[^"]*"$')
 SENTINEL = 'D!efault'
 
 
+class BadStr:
+    """A value that cannot be turned into a header string."""
+
+    def __str__(self):
+        raise ValueError('this object has no string form')
+
+    __repr__ = object.__repr__
+
+
+# process-local time zones the server may run in (POSIX TZ strings, no zoneinfo database needed)
+TZS = ['UTC', 'JST-9', 'EST5EDT,M3.2.0,M11.1.0', 'NST3:30NDT,M3.2.0,M11.1.0', 'XXX-13:45']
+
+
+def set_tz(tz):
+    os.environ['TZ'] = tz
+    time.tzset()
+
+
 def dec(v):
     """JSON-friendly program value -> python value."""
     if isinstance(v, dict):
@@ -71,6 +92,8 @@ def dec(v):
             return datetime.datetime(y, mo, d, h, mi, s, tzinfo=tz)
         if 'tuple' in v:
             return tuple(dec(x) for x in v['tuple'])
+        if 'badstr' in v:
+            return BadStr()
         return {k: dec(x) for k, x in v.items()}
     if isinstance(v, list):
         return [dec(x) for x in v]
@@ -91,8 +114,11 @@ def recase(rng, name):
 # ------------------------------------------------------------------ execution context
 
 class Ctx:
-    def __init__(self, rec, prog, server, secure_default):
-        self.rec, self.prog, self.server, self.sd = rec, prog, server, secure_default
+    def __init__(self, rec, prog, server, secure_default, tz='UTC'):
+        self.rec, self.prog, self.server, self.sd, self.tz = rec, prog, server, secure_default, tz
+        self.rejected = []        # cookie writes that raised: dict(name, value, seq)
+        self.seq = 0
+        self.skip_cookies = False
         self.model = M.HeaderModel()
         self.crng = random.Random('c15|' + repr(prog))
         self.reports = 0
@@ -109,7 +135,7 @@ class Ctx:
             if self.reports > 3:
                 return
         self.rec.violation(kind, {'prog': self.prog, 'server': self.server, 'secure_default': self.sd,
-                                  'step': step, 'detail': detail}, known_key=known)
+                                  'tz': self.tz, 'step': step, 'detail': detail}, known_key=known)
 
 
 CUR = [None]
@@ -354,6 +380,9 @@ def apply_prop(ctx, resp, i, pname, spec):
 def apply_op(ctx, resp, i, op):  # noqa: C901
     rec, m = ctx.rec, ctx.model
     kind = op[0]
+    if kind == 'bad':
+        apply_bad(ctx, resp, i, op[1])
+        return
     if kind == 'set':
         name, value = op[1], op[2]
         if m.is_cookie(name):
@@ -405,21 +434,8 @@ def apply_op(ctx, resp, i, op):  # noqa: C901
                 if got != m.get(name):
                     ctx.report('get-header-mismatch', i, {'name': name, 'got': got, 'want': m.get(name)})
     elif kind == 'set_headers':
-        form, pairs = op[1], [(p[0], p[1]) for p in op[2]]
-        if form == 'dict':
-            arg = dict(pairs)
-            eff = list(arg.items())
-        elif form == 'lists':
-            arg, eff = [list(p) for p in pairs], pairs
-        elif form == 'gen':
-            arg, eff = (p for p in pairs), pairs
-        elif form == 'mapping':
-            class _Map:
-                def items(self_):
-                    return list(pairs)
-            arg, eff = _Map(), pairs
-        else:
-            arg, eff = list(pairs), pairs
+        form = op[1]
+        arg, eff = _headers_arg(form, op[2])
         if any(m.is_cookie(n) for n, _ in eff):
             _expect_refused(ctx, i, 'set_headers', lambda: resp.set_headers(arg))
             # which of the other names were already applied is not specified: either value is fine
@@ -518,7 +534,8 @@ def apply_op(ctx, resp, i, op):  # noqa: C901
         earlier = (prev['earlier'] + [prev['exp']]) if prev else []
         if prev:
             rec.count('op.cookie_rewrite')
-        m.jar[name] = {'kind': 'set', 'value': value, 'kw': kw, 'exp': exp, 'earlier': earlier}
+        ctx.seq += 1
+        m.jar[name] = {'kind': 'set', 'value': value, 'kw': kw, 'exp': exp, 'earlier': earlier, 'seq': ctx.seq}
     elif kind == 'unset':
         name, kw = op[1], dict(op[2])
         rec.count('op.unset')
@@ -535,7 +552,8 @@ def apply_op(ctx, resp, i, op):  # noqa: C901
         earlier = (prev['earlier'] + [prev['exp']]) if prev else []
         if prev:
             rec.count('op.unset_after_write')
-        m.jar[name] = {'kind': 'unset', 'kw': kw, 'exp': exp, 'earlier': earlier}
+        ctx.seq += 1
+        m.jar[name] = {'kind': 'unset', 'kw': kw, 'exp': exp, 'earlier': earlier, 'seq': ctx.seq}
     elif kind == 'stream':
         n = op[1]
         rec.count('op.stream')
@@ -550,6 +568,74 @@ def apply_op(ctx, resp, i, op):  # noqa: C901
             ctx.stream = True
     else:
         raise RuntimeError('unknown op %r' % (op,))
+
+
+def _headers_arg(form, raw_pairs):
+    pairs = [tuple(dec(x) for x in p) for p in raw_pairs]
+    if form == 'dict':
+        arg = dict(pairs)
+        return arg, list(arg.items())
+    if form == 'lists':
+        return [list(p) for p in pairs], pairs
+    if form == 'gen':
+        return (p for p in pairs), pairs
+    if form == 'mapping':
+        class _Map:
+            def items(self_):
+                return list(pairs)
+        return _Map(), pairs
+    return list(pairs), pairs
+
+
+def apply_bad(ctx, resp, i, inner):
+    """An operation whose argument the API is expected to reject.  If the call raises, the
+    response must be exactly what it was before (a rejected operation is not an operation);
+    if this falcon accepts the argument, nothing is demanded and the model adopts the result."""
+    rec, m = ctx.rec, ctx.model
+    kind = inner[0]
+    if kind == 'set':
+        fn = lambda: resp.set_header(dec(inner[1]), dec(inner[2]))  # noqa: E731
+    elif kind == 'append':
+        fn = lambda: resp.append_header(dec(inner[1]), dec(inner[2]))  # noqa: E731
+    elif kind == 'delete':
+        fn = lambda: resp.delete_header(dec(inner[1]))  # noqa: E731
+    elif kind == 'get':
+        fn = lambda: resp.get_header(dec(inner[1]))  # noqa: E731
+    elif kind == 'set_headers':
+        harg = _headers_arg(inner[1], inner[2])[0]
+        fn = lambda: resp.set_headers(harg)  # noqa: E731
+    elif kind == 'prop':
+        fn = lambda: setattr(resp, inner[1], dec(inner[2]))  # noqa: E731
+    elif kind == 'link':
+        lkw = _link_kwargs(dec(inner[1]))
+        fn = lambda: resp.append_link(**lkw)  # noqa: E731
+    elif kind == 'cookie':
+        ckw = dec(inner[3])
+        fn = lambda: resp.set_cookie(inner[1], inner[2], **ckw)  # noqa: E731
+    elif kind == 'unset':
+        ukw = dec(inner[2])
+        fn = lambda: resp.unset_cookie(inner[1], **ukw)  # noqa: E731
+    else:
+        raise RuntimeError('unknown rejected op %r' % (inner,))
+    try:
+        fn()
+    except StopCheck:
+        raise
+    except Exception:  # noqa
+        rec.count('bad.raised')
+        rec.count('bad.raised.' + kind)
+        if kind == 'prop':
+            rec.count('bad.raised.prop.' + inner[1])
+            if m.get(PROPS[inner[1]]) is not None:
+                rec.count('bad.raised.prop_over_existing')
+        if kind == 'cookie':
+            ctx.seq += 1
+            ctx.rejected.append({'name': inner[1], 'value': inner[2], 'seq': ctx.seq})
+        return          # the model stays as it is; probe() and the emission check compare
+    rec.count('bad.accepted')
+    _sync(ctx, resp)
+    if kind in ('cookie', 'unset') or (kind == 'append' and isinstance(inner[1], str) and m.is_cookie(inner[1])):
+        ctx.skip_cookies = True
 
 
 def _zero_max_age(kw):
@@ -771,6 +857,23 @@ def check_emission(ctx, hdrs):  # noqa: C901
             remaining.remove(raw)
         else:
             ctx.report('raw-cookie-missing', END, {'raw': raw, 'lines': lines})
+    if ctx.skip_cookies:
+        rec.count('cookies.skipped_after_accepted_bad_op')
+        return
+    # a set_cookie() call that raised must not have written (or replaced) a cookie
+    rej_over = {}
+    for r in ctx.rejected:
+        rec.count('mon.rejected_cookie')
+        ent = m.jar.get(r['name'])
+        if ent is None:
+            for line in list(remaining):
+                pp = M.parse_set_cookie(line)
+                if pp and pp[0] == r['name'] and pp[1] == r['value']:
+                    remaining.remove(line)
+                    ctx.report('rejected-cookie-written', END, {'cookie': r['name'], 'line': line}, K_REJ)
+                    break
+        elif r['seq'] > ent['seq']:
+            rej_over[r['name']] = r
     parsed = {}
     names = []
     for line in remaining:
@@ -788,12 +891,18 @@ def check_emission(ctx, hdrs):  # noqa: C901
     echo = []
     for name, entry in m.jar.items():
         (cname, cvalue, attrs), line = parsed[name]
+        if name in rej_over and cvalue == rej_over[name]['value'] and entry.get('value') != cvalue:
+            ctx.report('rejected-cookie-replaced-earlier-one', END, {'cookie': name, 'line': line}, K_REJ)
+            continue
         if not line.isascii():
             ctx.report('cookie-line-not-ascii', END, {'line': line})
         if entry['kind'] == 'set':
             rec.count('mon.cookie_attrs')
             for k in entry['exp']:
                 rec.count('attr.' + k)
+            ex = entry['kw'].get('expires')
+            if ex is not None and ex.tzinfo is None and ctx.tz != 'UTC':
+                rec.count('attr.expires_naive_local_zone_not_utc')
             d = M.diff_attrs(entry['exp'], attrs)
             if d:
                 ctx.report('cookie-attributes', END, {'cookie': name, 'line': line, 'kw': repr(entry['kw']),
@@ -853,9 +962,18 @@ def check_echo(ctx, echo):
 SERVERS = [('wsgi', 'asgi')]
 
 
-def run_program(rec, prog, secure_default=True, servers=None, key='auto'):
+_tz_counter = [0]
+
+
+def run_program(rec, prog, secure_default=True, servers=None, key='auto', tz=None):
+    if tz is None:
+        # the server's local zone rotates from case to case: nothing emitted may depend on it
+        _tz_counter[0] += 1
+        tz = TZS[_tz_counter[0] % len(TZS)]
+    set_tz(tz)
+    rec.count('tz.' + tz.split(',')[0])
     for server in (servers or SERVERS[0]):
-        ctx = Ctx(rec, prog, server, secure_default)
+        ctx = Ctx(rec, prog, server, secure_default, tz)
         CUR[0] = ctx
         res, hdrs, failed, info = _request(server, '/run')
         if ctx.stopped:
@@ -887,6 +1005,7 @@ SYMS = [
     ['unset', 'c', {}],
     ['link', {'target': '/\u00e9', 'rel': 'next'}],
     ['set', 'SET-cookie', 'z'],
+    ['bad', ['prop', 'etag', '']],
 ]
 
 DT_NAIVE = {'dt': [2031, 5, 17, 3, 4, 5], 'off': None}
@@ -913,6 +1032,17 @@ VALUE_CHARS = [chr(c) for c in range(0x20, 0x7F)] + [chr(c) for c in range(0xA0,
 TOKEN_CHARS = sorted(M.TCHAR)
 COOKIE_VALUE_CHARS = [chr(c) for c in range(0x20, 0x7F)]
 SAFE_VALUE_CHARS = list('abcXYZ019-._~!#$%&*+/:')
+
+
+BAD_PROP = {
+    'etag': ['', 5], 'expires': ['a string', 5], 'last_modified': ['a string', 5],
+    'content_range': [{'tuple': [0]}, 5], 'vary': [5, [1, 2]], 'cache_control': [5, [1, 2]],
+    'location': [404], 'content_location': [404], 'downloadable_as': [5], 'viewable_as': [5],
+    'content_type': [{'badstr': 1}], 'content_length': [{'badstr': 1}], 'retry_after': [{'badstr': 1}],
+    'accept_ranges': [{'badstr': 1}],
+}
+BAD_COOKIE_KW = [{'same_site': 'bogus'}, {'max_age': 'abc'}, {'expires': 'tomorrow'}, {'max_age': [1]},
+                 {'same_site': 'laxx', 'domain': 'x.org'}]
 
 
 def cookie_cross_product():
@@ -988,7 +1118,45 @@ def directed_programs():
                 ['link', {'target': '/b', 'rel': 'prev', 'crossorigin': 'USE-credentials', 'title': 'B, the; 2nd=b',
                           'type_hint': 'text/html', 'hreflang': ['en', 'fr-CA'], 'link_extension': [['x-foo', '1'], ['media', 'screen']]}],
                 ['set', 'LINK', 'manual'], ['link', {'target': '/c', 'rel': 'http://ex.org/rel type', 'hreflang': 'de'}]])
+    # -- rejected operations: the response must be left exactly as it was
+    bs = {'badstr': 1}
+    for p, bads in BAD_PROP.items():
+        for b in bads:
+            out.append([['prop', p, vals[p]], ['bad', ['prop', p, b]], ['get', PROPS[p]], ['bad', ['prop', p, b]],
+                        ['prop', p, None], ['bad', ['prop', p, b]], ['set', PROPS[p].upper(), 'manual'],
+                        ['bad', ['prop', p, b]]])
+    out.append([['set', 'X-A', '1'], ['bad', ['set', 'X-A', bs]], ['bad', ['append', 'x-a', bs]],
+                ['bad', ['set', None, 'v']], ['bad', ['append', None, 'v']], ['bad', ['delete', None]],
+                ['bad', ['get', None]], ['bad', ['set_headers', 'pairs', [['X-A', bs]]]],
+                ['bad', ['set_headers', 'pairs', [['X-A', '1', '2']]]], ['bad', ['set_headers', 'dict', [[None, 'v']]]],
+                ['bad', ['set_headers', 'gen', [['x-A', bs]]]], ['get', 'X-A']])
+    out.append([['link', {'target': '/a', 'rel': 'next'}], ['bad', ['link', {'target': 5, 'rel': 'next'}]],
+                ['bad', ['link', {'target': '/b', 'rel': 'next', 'title_star': ['en']}]],
+                ['bad', ['link', {'target': '/b', 'rel': 'next', 'link_extension': [['a']]}]],
+                ['bad', ['link', {'target': '/b', 'rel': 5}]], ['bad', ['link', {'target': '/b', 'rel': 'next', 'anchor': 5}]],
+                ['get', 'link']])
+    for j, kw in enumerate(BAD_COOKIE_KW):
+        out.append([['cookie', 'keep', 'v', {}], ['bad', ['cookie', 'rej', 'rejected-%d' % j, kw]],
+                    ['append', 'Set-Cookie', 'r=1']])
+        out.append([['cookie', 'rej', 'orig', {'path': '/'}], ['bad', ['cookie', 'rej', 'rejected-%d' % j, kw]]])
+        out.append([['unset', 'rej', {}], ['bad', ['cookie', 'rej', 'rejected-%d' % j, kw]], ['cookie', 'z', '1', {}]])
+        out.append([['bad', ['cookie', 'rej', 'rejected-%d' % j, kw]], ['cookie', 'rej', 'good', {'max_age': 5}]])
+    out.append([['cookie', 'keep', 'v', {}], ['bad', ['unset', 'a b', {}]], ['bad', ['unset', 'n\u00e4me', {}]]])
     return out
+
+
+def g_bad(rng, pool, cnames):
+    r = rng.random()
+    if r < 0.5:
+        p = rng.choice(list(BAD_PROP))
+        return ['bad', ['prop', p, rng.choice(BAD_PROP[p])]]
+    if r < 0.7:
+        return ['bad', ['cookie', rng.choice(cnames), 'rejected-%d' % rng.randint(0, 99), rng.choice(BAD_COOKIE_KW)]]
+    if r < 0.85:
+        return ['bad', [rng.choice(['set', 'append']), g_name(rng, pool), {'badstr': 1}]]
+    if r < 0.95:
+        return ['bad', [rng.choice(['set', 'append', 'delete', 'get']), None, 'v'][:3]]
+    return ['bad', ['link', {'target': rng.choice([5, None]), 'rel': 'next'}]]
 
 
 def g_value(rng):
@@ -1187,12 +1355,14 @@ def g_history(rng):
             if rng.random() < 0.3:
                 kw['path'] = rng.choice(['/', '/a/b'])
             prog.append(['unset', rng.choice(cnames), kw])
-        elif r < 0.93:
+        elif r < 0.915:
             n = rng.choice(cnames) if rng.random() < 0.5 else g_cookie_name(rng)
             raw = '%s=%s' % (n, ''.join(rng.choice(SAFE_VALUE_CHARS) for _ in range(rng.randint(0, 6))))
             if rng.random() < 0.3:
                 raw += rng.choice(['; Path=/', '; HttpOnly', '; Max-Age=10; Secure'])
             prog.append(['append', recase(rng, 'Set-Cookie'), raw])
+        elif r < 0.935:
+            prog.append(g_bad(rng, pool, cnames))
         elif r < 0.95 and not streamed:
             streamed = True
             prog.append(['stream', rng.choice([0, 1, 5, 100])])
@@ -1246,7 +1416,7 @@ def run(rec):
         SERVERS[0] = ('asgi',)
         frac = 0.3
 
-    # -- phase A: all histories up to length L over the 15-symbol alphabet
+    # -- phase A: all histories up to length L over the abstract-operation alphabet SYMS
     small = quick or rec.mode != 'pure'
     maxlen = 3 if small else 4
     for L in range(0, maxlen + 1):
@@ -1328,7 +1498,7 @@ def run(rec):
     rec.floor('phase.B', 5760)
     rec.floor('phase.D', 500)
     rec.floor('phase.C', 200)
-    rec.floor('phase.E', 70)
+    rec.floor('phase.E', 110)
     for c, nmin in [('mon.headers', 2000), ('mon.get_header', 4000), ('mon.prop_read', 10000), ('get.recased', 500),
                     ('get.present', 500), ('get.absent', 500), ('mon.emission', 800), ('mon.emit_plain', 500),
                     ('mon.asgi_name_case', 500), ('mon.cookie_lines', 500), ('mon.raw_cookie', 100),
@@ -1350,6 +1520,14 @@ def run(rec):
         rec.floor(c, nmin)
     for p in PROPS:
         rec.floor('op.prop.' + p, 5)
+        rec.floor('bad.raised.prop.' + p, 4)
+    for c, nmin in [('bad.raised', 300), ('bad.raised.prop_over_existing', 100), ('bad.raised.cookie', 20),
+                    ('mon.rejected_cookie', 20), ('bad.raised.set', 4), ('bad.raised.append', 4),
+                    ('bad.raised.set_headers', 4), ('bad.raised.link', 4), ('bad.raised.unset', 2),
+                    ('attr.expires_naive_local_zone_not_utc', 1000)]:
+        rec.floor(c, nmin)
+    for tz in TZS:
+        rec.floor('tz.' + tz.split(',')[0], 200)
 
 
 def replay(rec, w):
@@ -1357,5 +1535,5 @@ def replay(rec, w):
     prog = wit['prog']
     print('replaying history of %d operations (secure_default=%r), reported on %s' % (
         len(prog), wit.get('secure_default'), wit.get('server')))
-    run_program(rec, prog, wit.get('secure_default', True))
+    run_program(rec, prog, wit.get('secure_default', True), tz=wit.get('tz') or 'UTC')
     rec.case('replay-sentinel')
